@@ -206,6 +206,20 @@ theorem sig_code (U : Universe) {m : Nat} {W1 W2 : World} {fuel1 fuel2 : Nat} {r
     exact this
   exact ⟨hcode, vars_eq U h1.hvars h2.hvars hnames (U.varNames fn1 hU1) (U.varsIn fn1 hU1) (U.varsIn fn2 hU2) hev, hsubs⟩
 
+/-- … and the paths the two bodies load resolve to the same signatures -/
+theorem sig_deps {m : Nat} {W1 W2 : World} {fuel1 fuel2 : Nat} {refs1 refs2 : Refs}
+    {stack1 stack2 : List String} {fn1 fn2 : Fn} {ctx1 ctx2 : ArgCtx} {fis1 fis2 : FIS} {r1 r2 : Refs}
+    {ev1 ev2 : List (String × Sg)} {io1 io2 : Option Sg} {st1 st2 : VisitSt} {b1 b2 : Sg}
+    {d1 d2 : List (String × Sg)} {ret1 ret2 : Sg}
+    (h1 : AnalyseOk m W1 fuel1 refs1 stack1 fn1 ctx1 fis1 r1 ev1 io1 st1 b1 d1 ret1)
+    (h2 : AnalyseOk m W2 fuel2 refs2 stack2 fn2 ctx2 fis2 r2 ev2 io2 st2 b2 d2 ret2)
+    (hs : fis1.retSig = fis2.retSig) : ∀ p s, (p, s) ∈ d1 ↔ (p, s) ∈ d2 := by
+  rw [h1.retSig, h2.retSig] at hs
+  subst hs
+  obtain ⟨pa1, hpa1⟩ := buildReturnSig_argPairs h1.hret
+  obtain ⟨pa2, hpa2⟩ := buildReturnSig_argPairs h2.hret
+  exact (buildReturnSig_inj _ _ _ _ _ _ _ _ _ _ _ _ pa1 pa2 hpa1 hpa2 (h1.hret.trans h2.hret.symm)).2.2.1
+
 /-! ## Plain execution, one item at a time -/
 
 /-- the result of one item under plain execution (the `let r` of `plainItems`) -/
